@@ -78,3 +78,9 @@ namespace wit { inline void use_tuple_lvalues(frg::tuple<int, char> &a, frg::tup
 	(void)frg::apply([](int, char) { return 0; }, ca);
 	(void)c; (void)d;
 } }
+// converting move construction from a tuple of references: the referenced objects belong to somebody else
+// (rule R.move-through-reference-member)
+namespace wit { inline void use_tuple_ref_move(frg::tuple<wit::Elem &, int> &&r) {
+	frg::tuple<wit::Elem, int> v(std::move(r));
+	(void)v;
+} }
